@@ -6,9 +6,11 @@ import (
 	"go/token"
 	"go/types"
 	"math/bits"
+	"strings"
 
 	"golang.org/x/tools/go/packages"
 
+	"csverify/bitexec"
 	"csverify/core"
 )
 
@@ -365,7 +367,14 @@ func checkVarintClasses(r *core.Result, prog *core.Program) {
 	wr, why2 := writerByClass(root, "EncodeVarint")
 	pos := "encoder.go / sizeof.go"
 	if why1 != "" || why2 != "" {
-		r.Ob("E-varint-size", "EncodeVarint writes SizeOfVarint(v) bytes for every bit-length class", pos, false, fmt.Sprintf("undecided: SizeOfVarint: %s; EncodeVarint: %s", why1, why2))
+		// the loop is not of the counted shape (e.g. it delegates to encoding/binary): decide the same table by
+		// interpreting both functions on every value of each bit-length class (bit-provenance domain)
+		bad := varintClassesByInterpretation(root)
+		r.Ob("E-varint-size", "EncodeVarint writes SizeOfVarint(v) bytes for every bit-length class", pos, bad == "",
+			fmt.Sprintf("%s (structural analysis undecided: SizeOfVarint: %s; EncodeVarint: %s)", bad, why1, why2))
+		a, ok1 := shiftConst(root, "SizeOfTagKey")
+		b, ok2 := shiftConst(root, "EncodeTag")
+		r.Ob("E-key-shift", "SizeOfTagKey and EncodeTag shift the field number by 3 bits", pos, ok1 && ok2 && a == b && a == 3, fmt.Sprintf("SizeOfTagKey shifts by %d (found=%v), EncodeTag by %d (found=%v); the wire format reserves 3 bits for the wire type", a, ok1, b, ok2))
 		return
 	}
 	bad := ""
@@ -381,4 +390,41 @@ func checkVarintClasses(r *core.Result, prog *core.Program) {
 	a, ok1 := shiftConst(root, "SizeOfTagKey")
 	b, ok2 := shiftConst(root, "EncodeTag")
 	r.Ob("E-key-shift", "SizeOfTagKey and EncodeTag shift the field number by 3 bits", pos, ok1 && ok2 && a == b && a == 3, fmt.Sprintf("SizeOfTagKey shifts by %d (found=%v), EncodeTag by %d (found=%v); the wire format reserves 3 bits for the wire type", a, ok1, b, ok2))
+}
+
+// varintClassesByInterpretation: for every bit length k, and every value of that bit length, EncodeVarint writes and
+// SizeOfVarint reports ceil(max(k,1)/7) bytes. Returns "" or a description of the first class that fails.
+func varintClassesByInterpretation(root *packages.Package) string {
+	for k := 0; k <= 64; k++ {
+		want := int64((max(k, 1) + 6) / 7)
+		h := newBitHarness(root)
+		k := k
+		paths, _, failed, exhausted := bitexec.Explore(500, func(c *bitexec.Ctx) {
+			fixed := map[int]bool{}
+			for i := k; i < 64; i++ {
+				fixed[i] = false
+			}
+			if k > 0 {
+				fixed[k-1] = true
+			}
+			v := c.Input("v", 64, false, fixed)
+			buf := bitexec.NewBuffer(10, bitexec.TopByte)
+			n, ok := constOf(h.call("EncodeVarint", nil, bitexec.Bytes{Buf: buf, Len: 10, Cap: 10}, v)[0])
+			c.Check("EncodeVarint", ok && n == want, fmt.Sprintf("writes %d bytes (known=%v), a base-128 varint of a %d-bit value has %d", n, ok, k, want))
+			sz, ok := constOf(h.call("SizeOfVarint", nil, v)[0])
+			c.Check("SizeOfVarint", ok && sz == want, fmt.Sprintf("reports %d bytes (known=%v), a base-128 varint of a %d-bit value has %d", sz, ok, k, want))
+		})
+		if exhausted || paths == 0 {
+			return fmt.Sprintf("values of bit length %d: undecided (too many partitions)", k)
+		}
+		if len(failed) > 0 {
+			f := failed[0]
+			msg := strings.Join(firstN(f.Failures, 2), "; ")
+			if f.Abort != "" {
+				msg = "stopped: " + f.Abort + " " + msg
+			}
+			return fmt.Sprintf("values of bit length %d: %s", k, msg)
+		}
+	}
+	return ""
 }
